@@ -319,6 +319,56 @@ def run_moved(task):
 # ---------------------------------------------------------------------------------------------
 # (iii) raw styles keep their input bytes; git log -p producer
 
+def run_moved_syntax(task):
+    """a moved line mapped to a style that asks for syntax colours (`--map-styles 'bold purple => syntax 103'`) is shown
+    in that style whatever precedes it in its run: the same row after 0..2 ordinary removed / added lines (real
+    `git diff --color-moved` puts the plain removed blank line in front of a moved function) and after unchanged lines"""
+    (deadline,) = task
+    import itertools
+    drv = explore.get_driver()
+    viols = []
+    n = 0
+    distinct = set()
+    head = b"diff --git a/f.rs b/f.rs\n--- a/f.rs\n+++ b/f.rs\n@@ -1,9 +1,9 @@\n"
+    code = b'fn main() { let x = "s"; } // c'
+    for label, ov in (("unified", {}), ("sbs", {"side-by-side": True, "width": "100"}), ("line-numbers", {"line-numbers": True})):
+        o = dict(ov)
+        o.update({"map-styles": "bold purple => syntax 103, bold cyan => syntax 104", "syntax-theme": "Monokai Extended",
+                  "true-color": "always", "max-line-distance": "0"})
+        args = build_args(base_opts(o))
+        cid = drv.mkconfig(args)
+        for sign, sgr, plain_sgr in ((b"-", b"1;35", b"31"), (b"+", b"1;36", b"32")):
+            moved = b"\x1b[" + sgr + b"m" + sign + code + b"\x1b[m"
+            ordinary = [b"\x1b[" + plain_sgr + b"m" + sign + b"\x1b[m", b"\x1b[" + plain_sgr + b"m" + sign + b"other();\x1b[m"]
+            prefixes = [()] + [p_ for L in (1, 2) for p_ in itertools.product(ordinary + [b" ctx"], repeat=L)]
+            res = drv.render(cid, [head + b"".join(l + b"\n" for l in p_) + moved + b"\n ctx2\n" for p_ in prefixes])
+            rows = []
+            for r in res:
+                n += 1
+                rr = None
+                if not r.panic:
+                    rr = []
+                    for row in term.decode(r.out):
+                        cs = row.cells()
+                        txt = "".join(c for c, _ in cs)
+                        if "fn main()" in txt:
+                            i0 = txt.index("fn main()")
+                            rr.append(cs[i0:i0 + len(code)])
+                rows.append(rr)
+                distinct.add(repr(rr))
+            for p_, rr in zip(prefixes, rows):
+                if rr is not None and rows[0] is not None and rr != rows[0] \
+                        and not any(v.klass == "moved-style-depends-on-run" for v in viols):
+                    v = Violation("moved-style-depends-on-run", "[%s] a moved %s line mapped to `syntax 10x` is painted differently "
+                                  "after the lines %r than at the start of its hunk" % (label, sign.decode(), [x.decode("latin-1") for x in p_]),
+                                  (head + b"".join(l + b"\n" for l in p_) + moved + b"\n").split(b"\n")[:-1])
+                    v.args = args
+                    v.config_label = "moved-syntax," + label
+                    viols.append(v)
+        drv.drop(cid)
+    return {"label": "moved-syntax", "n": n, "violations": viols, "distinct": len(distinct)}
+
+
 def make_repo():
     tmp = tempfile.mkdtemp(prefix="verif_c08_repo_")
     def git(*a):
@@ -339,6 +389,28 @@ def make_repo():
     outs = {}
     for name, cmd in [("log", ["log", "-p"]), ("show", ["show", "HEAD"]), ("log-moved", ["log", "-p", "--color-moved=no"])]:
         outs[name] = (git(*(cmd + ["--color=never"])), git(*(cmd + ["--color=always"])))
+    # a merge whose result differs from both parents: combined diffs with every marker pair (`- `, ` -`, `--`, `+ `,
+    # ` +`, `++`), as `git show` (--cc) and `git log -c` write them
+    def write(name, lines):
+        with open(os.path.join(tmp, name), "w") as f:
+            f.write("".join(l + "\n" for l in lines))
+    write("m.txt", ["l1", "l2", "l3", "l4", "l5", "l6"])
+    git("add", "-A")
+    git("commit", "-q", "-m", "base")
+    git("checkout", "-q", "-b", "side")
+    write("m.txt", ["l1", "l2 theirs", "l3", "l4", "l6", "l7 side"])
+    git("commit", "-q", "-a", "-m", "side")
+    git("checkout", "-q", "main")
+    write("m.txt", ["l1", "l2 ours", "l3", "l5", "l6"])
+    git("commit", "-q", "-a", "-m", "ours")
+    subprocess.run(["git", "merge", "-q", "side"], cwd=tmp, env=GIT_ENV, stdout=subprocess.PIPE, stderr=subprocess.PIPE)
+    write("m.txt", ["l1", "l2 merged", "l3", "l6", "l7 side", "l8 new \t"])
+    git("add", "-A")
+    git("commit", "-q", "-m", "merge")
+    for name, cmd in [("show-merge", ["show", "HEAD"]), ("log-c", ["log", "-p", "-c", "-1"]), ("log-cc", ["log", "-p", "--cc", "-2"])]:
+        outs[name] = (git(*(cmd + ["--color=never"])), git(*(cmd + ["--color=always"])))
+        if b"@@@" not in outs[name][0]:
+            raise MachineryError("no combined diff in git %s" % name)
     shutil.rmtree(tmp, ignore_errors=True)
     return outs
 
@@ -446,6 +518,7 @@ def main(tier):
     ])
     outs = make_repo()
     lres = explore.pmap(run_log, [(label, ov, outs) for label, ov, k in configs if k <= 1])
+    lres += explore.pmap(run_moved_syntax, [(deadline,)])
     n = 0
     differing = 0
     viols = []
